@@ -5,7 +5,7 @@ import AndaVerif.Drv.Util
 Line-protocol driver of the C10 model (`drv_c10`). One request line in, one response line out.
 
 L1 (API):  new U | ins D K | rem D K | insa D KS | rema D KS | upd D OLD NEW | get K | len
-           | keys C L | rq asc|desc N|- all|odd QUERY… | stats
+           | keys C L | rq asc|desc N|- all|odd|cnt QUERY… | stats
 QUERY (prefix):  eq K | gt K | ge K | lt K | le K | btw A B | in KS | or N q…  | and N q… | not q
                  | deep N q      (q wrapped in N `Not`s)
 KS = comma list or `-`.
@@ -76,10 +76,26 @@ def parseOp (ws : List String) : Option Op :=
   | "rq" :: dir :: n :: mode :: q => do
     let desc ← (if dir = "asc" then some false else if dir = "desc" then some true else none)
     let stop ← optNat? n
-    let odd ← (if mode = "all" then some false else if mode = "odd" then some true else none)
+    let odd ← (if mode = "all" then some EmitMode.all else if mode = "odd" then some EmitMode.odd
+               else if mode = "cnt" then some EmitMode.cnt else none)
     let (q, r) ← parseQ q
     if r.isEmpty then pure (.range desc stop odd q) else none
   | _ => none
+
+/-- Posting order (append / swap-remove in the code) is not part of the property: ids are printed
+ascending, here and in the harness. -/
+def insNat (x : Nat) : List Nat → List Nat
+  | [] => [x]
+  | y :: ys => if x ≤ y then x :: y :: ys else y :: insNat x ys
+def sortNats (xs : List Nat) : List Nat := xs.foldr insNat []
+
+/-- ids ascending inside each run of one key; the order of the runs is kept -/
+partial def canonPairs : List (Int × Nat) → List (Int × Nat)
+  | [] => []
+  | (k, d) :: r =>
+    let run := r.takeWhile (fun e => e.1 == k)
+    let rest := r.dropWhile (fun e => e.1 == k)
+    (sortNats (d :: run.map (·.2))).map (fun d => (k, d)) ++ canonPairs rest
 
 def showOut : Out → String
   | .ok b => if b then "ok:1" else "ok:0"
@@ -89,9 +105,9 @@ def showOut : Out → String
   | .n n => toString n
   | .okPair r i => s!"ok:{r},{i}"
   | .posting none => "none"
-  | .posting (some p) => "some:" ++ showNats p
+  | .posting (some p) => "some:" ++ showNats (sortNats p)
   | .keys ks => showInts ks
-  | .pairs ps => if ps.isEmpty then "-" else ",".intercalate (ps.map (fun (k, d) => s!"{k}:{d}"))
+  | .pairs ps => if ps.isEmpty then "-" else ",".intercalate ((canonPairs ps).map (fun (k, d) => s!"{k}:{d}"))
   | .stats i d q l => s!"{i},{d},{q},{l}"
 
 open AndaVerif.BTreeFlush in
@@ -125,7 +141,7 @@ def parseWrites : Nat → List String → Option (List Write)
   | _, _ => none
 
 def showMap (m : OMap) : String :=
-  if m.isEmpty then "-" else ";".intercalate (m.map (fun (k, p) => s!"{k}={showNats p}"))
+  if m.isEmpty then "-" else ";".intercalate (m.map (fun (k, p) => s!"{k}={showNats (sortNats p)}"))
 
 def showLoad : Option OMap → String
   | none => "nometa"
@@ -150,7 +166,8 @@ def stepFlush (s : DState) (k : Option Nat) (ws : List Write) : DState × String
   let shape := flushShape s.dur ws
   let strict := flushStrict s.dur ws
   let ci := commitIdx s.dur ws
-  let newOk := load (applyAll s.dur (ws.take (ci + 1))) == some s.bt.map
+  let canon := fun (m : OMap) => m.map (fun (k, p) => (k, sortNats p))
+  let newOk := (load (applyAll s.dur (ws.take (ci + 1)))).map canon == some (canon s.bt.map)
   let dumps := (List.range (ws.length + 1)).map (fun j => showLoad (load (applyAll s.dur (ws.take j))))
   let kk := match k with | some k => k | none => ws.length
   ({ s with dur := applyAll s.dur (ws.take kk) },
